@@ -420,7 +420,13 @@ impl<'a> DataRowIteratorTestData<'a> {
                     EntryIndex::Entry {
                         entry_index,
                         signal_index: _,
-                    } => row_result.entries[*entry_index] = DataEntry::X,
+                    } => {
+                        // A column can also drive an input (a signal named `<name>_out` next to
+                        // the bidirectional signal `<name>`): its value has to stay
+                        if !self.entry_is_input(*entry_index) {
+                            row_result.entries[*entry_index] = DataEntry::X
+                        }
+                    }
                     EntryIndex::Default { signal_index: _ } => continue,
                 }
             }
